@@ -145,7 +145,9 @@ impl IteratorNext {
             .pop()
             .expect("iterator stack should have at least an iterator");
 
-        iterator.step(context)?;
+        // Loop heads are counted by `IncrementLoopIteration`; the fixed number of steps of an
+        // array destructuring pattern is bounded by the pattern itself.
+        iterator.step_uncharged(context)?;
 
         context.vm.frame_mut().iterators.push(iterator);
 
